@@ -58,6 +58,8 @@ type Prog struct {
 
 	nFuncs int
 
+	funcMu     sync.Mutex
+	funcMemo   map[string]*types.Func
 	anchorOnce sync.Once
 	anchorTab  map[string]string
 	// Renamed: anchors that were not found under their recorded name and were resolved by fingerprint
@@ -133,10 +135,21 @@ func (p *Prog) Pkg(rel string) *packages.Package {
 // Func finds a package-level function or a method ("(*Generator).generateFile"
 // or "Generator.generateFile" both written as "Generator.generateFile").
 func (p *Prog) Func(rel, name string) *types.Func {
-	if f := p.funcByName(rel, name); f != nil {
+	k := rel + " " + name
+	p.funcMu.Lock()
+	defer p.funcMu.Unlock()
+	if f, ok := p.funcMemo[k]; ok {
 		return f
 	}
-	return p.funcByFingerprint(rel, name)
+	f := p.funcByName(rel, name)
+	if f == nil {
+		f = p.funcByFingerprint(rel, name)
+	}
+	if p.funcMemo == nil {
+		p.funcMemo = map[string]*types.Func{}
+	}
+	p.funcMemo[k] = f
+	return f
 }
 
 func (p *Prog) funcByName(rel, name string) *types.Func {
